@@ -40,7 +40,7 @@ MANIFEST = {
                  'pairs; stack/level invariants checked at every probe and '
                  'after the call',
     'text': 'All ordered forests of <= 3 (quick) / <= 4 (thorough) block '
-            'nodes over 23 block kinds (in, batched in, in mapping, in over mixed pushed / unpushed items, in / batched in over an empty sequence with the blocks in the else branch, if with three named conditions, with, with only, '
+            'nodes over 24 block kinds (in, batched in, in mapping, in over mixed pushed / unpushed items, in / batched in over an empty sequence with the blocks in the else branch, if with three named conditions, with, with only, '
             'let, if, try body, try handler, try/finally body, finally, '
             'raise, sub-template, tree, tree with expand_all + '
             'branches_expr) are run on the real code as a sub-template call '
@@ -57,7 +57,7 @@ MANIFEST = {
             'states.',
 }
 DYNAMIC = True        # few heavy cases: dynamic load balancing
-RULE = ('programs: forests of <= 3 / <= 4 block nodes over 23 kinds; faults: '
+RULE = ('programs: forests of <= 3 / <= 4 block nodes over 24 kinds; faults: '
         'none, one (each ordinal x {raise HB, return}), two (second at every '
         'later ordinal; quick: for programs of <= 2 blocks).  A run is '
         'non-trivial when a fault fired (control flow was changed).')
@@ -65,7 +65,7 @@ ASSUMPTIONS = ['tree rendering needs URL and RESPONSE in the namespace; the '
                'harness supplies both']
 CASE_CPU_SECONDS = 300.0
 
-KINDS = ('in', 'inb', 'inmap', 'inmix', 'inbmix', 'inempty', 'inbempty', 'if2', 'with', 'withonly', 'let', 'if', 'try', 'tryh',
+KINDS = ('in', 'inb', 'inmap', 'inbmap', 'inmix', 'inbmix', 'inempty', 'inbempty', 'if2', 'with', 'withonly', 'let', 'if', 'try', 'tryh',
          'tryf', 'fin', 'raise', 'sub', 'subtuple', 'tree', 'treex', 'treedm', 'treedp')
 LEAF_ONLY = ('withonly', 'tree', 'treex', 'treedm', 'treedp')     # no nested blocks inside
 SYNTAXES = ('dtml', 'ssi', 'epfs')
@@ -154,11 +154,15 @@ class Builder:
             n = ['if', [[N('c%d' % k), [T('no')]], [N('d%d' % k), [T('no')]],
                         [N('e%d' % k), inner]],
                  [self.probe('else%d' % k)]]
-        elif kind == 'inmap':
+        elif kind in ('inmap', 'inbmap'):
+            # mappings as items, one of them empty (a falsy frame)
             ns['seq%d' % k] = ['probe', 'seq%d' % k, [
-                'seq', 'tuple', [['map', {'e': ['lit', 1]}],
+                'seq', 'tuple', [['map', {'e': ['lit', 1]}], ['map', {}],
                                  ['map', {'e': ['lit', 2]}]]]]
-            n = ['in', N('seq%d' % k), inner, None, [['mapping', None]]]
+            opts = [['mapping', None]]
+            if kind == 'inbmap':
+                opts += [['size', '3'], ['orphan', '0']]
+            n = ['in', N('seq%d' % k), inner, None, opts]
         elif kind == 'with':
             ns['obj%d' % k] = ['probe', 'obj%d' % k,
                                ['obj', {'w': ['lit', 1]}]]
